@@ -2063,22 +2063,26 @@ def check_failops(ctx, rep, rng, count):
 
 
 def _run_parts(ctx, rep):
-    """Worker 0: the parts (A)-(H); the other workers: part (I).  With one worker: everything in a row."""
+    """Workers 0-3: the parts (A)-(D), (E), (G), (H); the other workers: part (I).  With fewer than six workers:
+    everything in a row in worker 0."""
     quick = ctx.tier == 'quick'
-    n_i = (2400 if quick else 60000) * ctx.scale
-    if ctx.parts == 1:
-        run_legacy(ctx, rep)
-        check_failops(ctx, rep, ctx.sub_rng('failops'), n_i)
-    elif ctx.part == 0:
-        run_legacy(ctx, rep)
+    n_i = (2400 if quick else 45000) * ctx.scale
+    if ctx.parts < len(LEGACY) + 2:
+        if ctx.part == 0:
+            for f in LEGACY:
+                f(ctx, rep)
+            check_failops(ctx, rep, ctx.sub_rng('failops'), n_i)
+    elif ctx.part < len(LEGACY):
+        LEGACY[ctx.part](ctx, rep)
     else:
-        share = n_i // (ctx.parts - 1) + 1
+        share = n_i // (ctx.parts - len(LEGACY)) + 1
         check_failops(ctx, rep, ctx.sub_rng('failops'), share)
 
 
 # ---------------------------------------------------------------------------------------------------------------
 
-def run_legacy(ctx, rep):
+def legacy_ad(ctx, rep):
+    """(A)-(D): alias stage, preferences, stub export, histories vs the model."""
     quick = ctx.tier == 'quick'
     budget = Budget()
     # probe: the simplest acyclic maps must construct at all (guards every in-process part below)
@@ -2097,18 +2101,21 @@ def run_legacy(ctx, rep):
         check_export_stub(ctx, rep, ctx.sub_rng('export'), (1500 if quick else 30000) * ctx.scale, budget)
     if not budget.exhausted:
         check_histories(ctx, rep, ctx.sub_rng('history'), (2500 if quick else 60000) * ctx.scale, budget)
-    if not budget.exhausted:
-        check_twins(ctx, rep, ctx.sub_rng('twin'), (700 if quick else 15000) * ctx.scale, budget)
-    if not budget.exhausted:
-        check_export_opts(ctx, rep, ctx.sub_rng('export-opts'), (150 if quick else 2000) * ctx.scale, budget)
-        rep.notes.append(f'(G) {sum(v for k, v in rep.dist.items() if k.startswith("opts-kind:"))} objects (models, '
-                         f'linkers, containers) x {len(OPT_COMBOS)} flag combinations x 2 spellings')
-    if not budget.exhausted:
-        check_hierarchies(ctx, rep, ctx.sub_rng('hier'), (350 if quick else 6000) * ctx.scale, budget)
-        rep.notes.append(f'(H) {rep.dist["hier-event:class"]} classes, {rep.dist["hier-event:new"]} constructor calls, '
-                         f'{sum(v for k, v in rep.dist.items() if k.startswith("hier-change-after-instance:") and not k.endswith(":none"))} '
-                         'class-level changes after the first instance')
-    rep.exhaustive = False
+
+
+def legacy_e(ctx, rep):
+    check_twins(ctx, rep, ctx.sub_rng('twin'), (700 if ctx.tier == 'quick' else 15000) * ctx.scale, Budget())
+
+
+def legacy_g(ctx, rep):
+    check_export_opts(ctx, rep, ctx.sub_rng('export-opts'), (150 if ctx.tier == 'quick' else 2000) * ctx.scale, Budget())
+
+
+def legacy_h(ctx, rep):
+    check_hierarchies(ctx, rep, ctx.sub_rng('hier'), (350 if ctx.tier == 'quick' else 6000) * ctx.scale, Budget())
+
+
+LEGACY = [legacy_ad, legacy_e, legacy_g, legacy_h]
 
 
 def run(ctx, rep):
@@ -2118,7 +2125,12 @@ def run(ctx, rep):
     if not CYCLIC_OK[0]:
         rep.notes.append('hang guard tripped: cyclic maps and self-maps are not constructed in-process in this run')
     fo.usable_member_names()
-    framework.parallel(_run_parts, ctx, rep, parts=max(2, min(ctx.workers, 16)) if ctx.workers > 1 else 1)
+    framework.parallel(_run_parts, ctx, rep, parts=min(ctx.workers, 16))
+    rep.notes.append(f'(G) {sum(v for k, v in rep.dist.items() if k.startswith("opts-kind:"))} objects (models, '
+                     f'linkers, containers) x {len(OPT_COMBOS)} flag combinations x 2 spellings')
+    rep.notes.append(f'(H) {rep.dist["hier-event:class"]} classes, {rep.dist["hier-event:new"]} constructor calls, '
+                     f'{sum(v for k, v in rep.dist.items() if k.startswith("hier-change-after-instance:") and not k.endswith(":none"))} '
+                     'class-level changes after the first instance')
     rep.notes.append(f'(I) {sum(v for k, v in rep.dist.items() if k.startswith("failops-kind:"))} histories with failing '
                      f'operations, {sum(v for k, v in rep.dist.items() if k.startswith("failops-op:") and not k.endswith(":ok"))} '
                      f'failed operations, {rep.dist["failops-model-compared:True"]} histories also run through the model; '
